@@ -53,6 +53,7 @@ def random_schedule(rng, tid, nprocs):
 def run():
     c = Check("C19")
     rng = c.rng
+    pool = cachelib.ReplayPool(c.scratch.dir, NCPU)       # lean workers, forked before any big data is loaded
     behs = []
     cover_stats = {}
 
@@ -64,35 +65,48 @@ def run():
         ev = json.load(open(c.replay_path))["event"]
         behs = [ev["meta"]["beh"]]
     else:
-        # ---- (A) one process: every fault sequence, every flag combination, crash at every boundary ----
+        # ---- (A) bounded instances of DatasetCache ----------------------------------------------------
+        # one process: every fault sequence (<= NRetries+2 failures, then ok/corrupt/truncated), all 8 flag
+        # combinations, cache absent/present, crash at every boundary, probe load afterwards;
+        # two processes: all interleavings; three: exhaustive (thorough) and -simulate; four: -simulate.
+        two = "MC_Cache2_thorough" if c.thorough else "MC_Cache2_quick"
+        jobs = []
         for n in (0, 1, 3):
-            r = c.model("MC_Cache", "MC_Cache1_n%d.cfg" % n, coverage=True, require_actions=STEP_ACTIONS)
-            c.model("MC_Cache", "MC_Cache1_n%d_live.cfg" % n)          # LaterLoadSucceeds under fairness
-            g = cachelib.Graph(r.json_lines)
-            limit = None if (c.thorough or n < 3) else 2500
-            walks, covered = g.cover(rng if limit else None, limit)
-            cover_stats["MC_Cache1_n%d" % n] = {"edges": g.nedges, "edges_covered": covered, "walks": len(walks)}
-            add(g, walks, "cover1-n%d" % n)
-            add(g, g.random_walks(rng, 300 if c.thorough else 60), "walk1-n%d" % n)
-        # ---- two processes: all interleavings -------------------------------------------------------
-        inst = "MC_Cache2_thorough" if c.thorough else "MC_Cache2_quick"
-        r = c.model("MC_Cache", inst + ".cfg", coverage=True, require_actions=STEP_ACTIONS)
-        c.model("MC_Cache", inst + "_live.cfg")
-        g = cachelib.Graph(r.json_lines)
-        limit = 20000 if c.thorough else 2500
-        walks, covered = g.cover(rng, limit)
-        cover_stats[inst] = {"edges": g.nedges, "edges_covered": covered, "walks": len(walks)}
-        add(g, walks, "cover2")
-        add(g, g.random_walks(rng, 3000 if c.thorough else 300), "walk2")
-        # ---- three / four processes ----------------------------------------------------------------
+            jobs.append({"module": "MC_Cache", "cfg": "MC_Cache1_n%d.cfg" % n, "coverage": True, "graph": "1-n%d" % n,
+                         "require_actions": [a for a in STEP_ACTIONS if n > 0 or a != "Retry"]})
+            jobs.append({"module": "MC_Cache", "cfg": "MC_Cache1_n%d_live.cfg" % n})      # LaterLoadSucceeds
+        jobs.append({"module": "MC_Cache", "cfg": two + ".cfg", "coverage": True, "graph": "2",
+                     "require_actions": STEP_ACTIONS})
+        jobs.append({"module": "MC_Cache", "cfg": two + "_live.cfg"})
         if c.thorough:
-            c.model("MC_Cache", "MC_Cache3_thorough.cfg", coverage=True, require_actions=STEP_ACTIONS, timeout=3000)
+            jobs.append({"module": "MC_Cache", "cfg": "MC_Cache3_thorough.cfg", "coverage": True,
+                         "require_actions": STEP_ACTIONS, "workers": NCPU, "heap": "16g"})
         for inst, num in (("MC_CacheSim_3", 120 if c.thorough else 12), ("MC_CacheSim_4", 60 if c.thorough else 6)):
-            r = c.model("MC_CacheSim", inst + ".cfg", simulate="num=%d" % num, depth=150)
-            for j in r.json_lines:
-                if j.get("k") == "beh":
-                    behs.append({"tid": 0, "cfg": j["cfg"], "slot": j["slot"], "net": j["net"],
-                                 "steps": j["steps"], "gz": len(behs) % 4 == 0, "src": inst})
+            jobs.append({"module": "MC_CacheSim", "modules": ["MC_CacheSim", "MC_Cache"], "cfg": inst + ".cfg",
+                         "simulate": "num=%d" % num, "depth": 150, "sim": inst})
+        results = cachelib.run_models(c, jobs, parallel=4)
+        for j, r in zip(jobs, results):
+            if "graph" in j:
+                g = cachelib.Graph(r.json_lines, generated=r.generated)
+                if j["graph"] == "2":
+                    limit = 20000 if c.thorough else 2500
+                    nwalk = 3000 if c.thorough else 300
+                else:
+                    limit = None if (c.thorough or j["graph"] != "1-n3") else 2500
+                    nwalk = 300 if c.thorough else 60
+                walks, covered = g.cover(rng if limit else None, limit)
+                cover_stats[j["cfg"][:-4]] = {"edges": g.nedges, "edges_covered": covered, "walks": len(walks)}
+                add(g, walks, "cover" + j["graph"])
+                add(g, g.random_walks(rng, nwalk), "walk" + j["graph"])
+            elif "sim" in j:
+                got = 0
+                for x in r.json_lines:
+                    if x.get("k") == "beh":
+                        got += 1
+                        behs.append({"tid": 0, "cfg": x["cfg"], "slot": x["slot"], "net": x["net"],
+                                     "steps": x["steps"], "gz": len(behs) % 4 == 0, "src": j["sim"]})
+                if not got:
+                    raise MachineryError("%s: simulation produced no complete behaviour" % j["sim"])
         # ---- harness-originated schedules, 2..16 processes ------------------------------------------
         for k in range(1500 if c.thorough else 150):
             behs.append(random_schedule(rng, 0, rng.choice([2, 2, 3, 4, 6, 8, 12, 16])))
@@ -100,7 +114,11 @@ def run():
         b["tid"] = i + 1
 
     # ---- (B) replay into real forked loaders ----------------------------------------------------------
-    traces = cachelib.replay_all(behs, c.scratch.dir, procs=NCPU)
+    import time
+    t_models = time.time() - c.t0
+    traces = pool.replay(behs)
+    pool.close()
+    t_replay = time.time() - c.t0 - t_models
     by_src = {}
     ncrash = nfault = 0
     for b, evs in zip(behs, traces):
@@ -144,6 +162,7 @@ def run():
     ntr = len(behs)
     c.coverage_extra = {"traces_validated_against_impl": ntr, "evaluations": ntr, "events_judged": len(c.events),
                         "behaviours_by_source": by_src, "transition_cover": cover_stats,
+                        "models_wall_s": round(t_models, 1), "replay_wall_s": round(t_replay, 1),
                         "traces_with_crash": ncrash, "traces_with_network_fault": nfault}
     c.assumptions = ["TLC 1.8 and CommunityModules Json/IOUtils/TLCExt",
                      "Linux fork / SIGKILL / rename semantics on the scratch file system (/verif/.scratch)",
